@@ -8,6 +8,50 @@ SimInit == Init /\ hist = <<>>
 SimNext == Next /\ hist' = Append(hist, last')
 SimSpec == SimInit /\ [][SimNext]_<<s, last, hist>>
 
+(* Schedules the harness can follow to the end: a step is taken only when it has a single outcome, i.e. no select
+   with several ready cases is resolved by the Go runtime on the way (the gate scheduler controls which goroutine
+   moves, not which case a select takes).  When every enabled step branches, any step is allowed. *)
+OneOutcome(g) == /\ (IF g[1] = "cl" THEN Eligible(s, g[2]) ELSE TRUE)
+                 /\ Cardinality(Quiesce(Release(s, g))) = 1
+TickState == IF MaxTicks < 0 THEN s ELSE [s EXCEPT !.ticks = @ + 1]
+DetStep == \E g \in Parked(s) :
+             /\ s.panic = "none" /\ ~AllDone(s)
+             /\ OneOutcome(g)
+             /\ s' \in Quiesce(Release(s, g))
+             /\ last' = Label(g)
+TickOK == /\ s.panic = "none" /\ ~AllDone(s)
+          /\ Refresh = "auto" /\ s.ls # "gone" /\ ~s.lsPend /\ ~s.pctx /\ (MaxTicks < 0 \/ s.ticks < MaxTicks)
+DetTick == /\ TickOK /\ Cardinality(AfterTick(TickState)) = 1 /\ Tick
+HasDet == /\ s.panic = "none" /\ ~AllDone(s)
+          /\ \/ \E g \in Parked(s) : OneOutcome(g)
+             \/ (TickOK /\ Cardinality(AfterTick(TickState)) = 1)
+DetNext == (IF HasDet THEN DetStep \/ DetTick ELSE Next) /\ hist' = Append(hist, last')
+SimSpecDet == SimInit /\ [][DetNext]_<<s, last, hist>>
+(* calm variant: additionally keep at most one goroutine waiting for the container (and for each bar), so that no
+   select finds two ready cases later on *)
+CtSenders(st) == Cardinality({c \in Clients : st.cl[c].st \in {"sendct", "sendio"}})
+                 + Cardinality({k \in DOMAIN st.er : st.er[k].pc \in {"trav_send", "pump_send"}})
+                 + (IF st.ls = "tick_send" THEN 1 ELSE 0)
+BarSenders(st, b) == Cardinality({c \in Clients : st.cl[c].st \in {"sendbar", "get"} /\ Op(c, st).b = b})
+                     + (IF st.bar[b].rg = "handoff" THEN 1 ELSE 0)
+                     + (IF st.bar[b].ctx /\ st.bar[b].pc = "idle" THEN 1 ELSE 0)
+Calm(st) == CtSenders(st) <= 1 /\ \A b \in Bars : BarSenders(st, b) <= 1
+CalmOutcome(g) == OneOutcome(g) /\ \A t \in Quiesce(Release(s, g)) : Calm(t)
+CalmStep == \E g \in Parked(s) :
+             /\ s.panic = "none" /\ ~AllDone(s)
+             /\ CalmOutcome(g)
+             /\ s' \in Quiesce(Release(s, g))
+             /\ last' = Label(g)
+CalmTickOK == TickOK /\ s.ls = "idle" /\ Cardinality(AfterTick(TickState)) = 1 /\ \A t \in AfterTick(TickState) : Calm(t)
+CalmTick == CalmTickOK /\ Tick
+HasCalm == /\ s.panic = "none" /\ ~AllDone(s)
+           /\ ((\E g \in Parked(s) : CalmOutcome(g)) \/ CalmTickOK)
+CalmNext == (IF HasCalm THEN CalmStep \/ CalmTick ELSE IF HasDet THEN DetStep \/ DetTick ELSE Next) /\ hist' = Append(hist, last')
+SimSpecCalm == SimInit /\ [][CalmNext]_<<s, last, hist>>
+(* strict variant: a behaviour ends where every enabled step branches (it is then not printed) *)
+StrictNext == (DetStep \/ DetTick) /\ hist' = Append(hist, last')
+SimSpecStrict == SimInit /\ [][StrictNext]_<<s, last, hist>>
+
 Outcome == IF s.panic # "none" THEN "panic" ELSE IF AllDone(s) THEN "done" ELSE IF Stuck THEN "stuck" ELSE "open"
 Emit == (Outcome # "open") => PrintT(<<"SCHED", Outcome, hist>>)
 =============================================================================
